@@ -367,14 +367,14 @@ def run(ctx):
             else:
                 log("replay file has neither a history nor sequential cases (kind=%s): nothing to re-run" % rp.get("kind"))
     elif quick:
-        plan = [("q1", ctx.seed, "inproc", "mem", 8, 6, 30, "-lossdur 1500ms"),
+        plan = [("q1", ctx.seed, "inproc", "mem", 8, 6, 30, "-lossdur 1500ms -stalebarrier 600ms"),
                 ("q2", ctx.seed + 7000, "procs", "pebble", 10, 6, 10),
                 # checkpoints taken while writes are applied (SnapCount 20) + followers restarted under load
                 ("q3", ctx.seed + 9000, "inproc", "mem", 9, 10, 2,
                  "-snapcount 20 -nemkind restarts -mix nonidem -pace 1ms -racedur 0s -pairdur 0s")]
     else:
         s = ctx.seed * 1000
-        plan = [("t1", s + 1, "inproc", "mem", 60, 8, 80, "-lossdur 1500ms"),
+        plan = [("t1", s + 1, "inproc", "mem", 60, 8, 80, "-lossdur 1500ms -stalebarrier 5s"),
                 ("t0", s + 8, "inproc", "mem", 40, 10, 2, "-snapcount 20 -nemkind restarts -mix nonidem -pace 1ms -racedur 0s -pairdur 0s"),
                 ("t8", s + 9, "procs", "pebble", 60, 6, 2, "-snapcount 50 -racedur 0s -pairdur 0s"),
                 ("t2", s + 2, "procs", "pebble", 130, 6, 40),
@@ -468,7 +468,10 @@ def run(ctx):
              "DEL / SET..XX on the same fresh key at the same moment, each through its own replica, so that the entries share an "
              "apply batch) and PAIRS (write through the leader, wait for the reply, then immediately the command whose local no-op "
              "shortcut matches the state BEFORE that write through a follower: LPUSH->LPOP, DEL->SETNX, SREM->SADD, SADD->SREM). "
-             "Directed fault schedules: FORGET-ACKED (leader->F2 cut, writes through the leader, leader->F1 cut, F1 restarted, "
+             "Directed fault schedules: STALE-BARRIER (leader->F appends and read-index answers held, heartbeats pass; a shortcut write "
+             "to F starts read-index round 1; DEL k through the leader acknowledged; after round 1 timed out SETNX k through F starts round 2 "
+             "and the OLD answer is delivered first: SETNX must not be answered from F's stale store; quick shortens the node's 5s round "
+             "timeout through a verif-only knob, thorough uses the real one), FORGET-ACKED (leader->F2 cut, writes through the leader, leader->F1 cut, F1 restarted, "
              "leader stopped, links healed: F1+F2 must hold every acknowledged write) and CHECKPOINT-RESTART (SnapCount 20, followers "
              "restarted in quick succession under load: a restart restores the latest checkpoint and replays the log). When a run does "
              "not settle, the replicas that are up to date with the current leader are still read (final reads), the others are not. "
